@@ -158,6 +158,22 @@ class Explorer:
                     if tgt is None:
                         tgt = t["otherwise"]
                     succ = [tgt]
+                elif t.get("discr_ty") not in (None, "bool"):
+                    # `match x { CONST => .., _ => .. }`: each arm is the atomic condition x == CONST
+                    x = self.view.op(t["discr"])
+                    if x[0] != "discr":
+                        keep = []
+                        taken = None
+                        for val, tb in t["targets"]:
+                            r = self.eval_term(("bin", "Eq", x, ("const", val, t["discr_ty"], None)))
+                            if r is True:
+                                taken = tb
+                            elif r is None:
+                                keep.append(tb)
+                        if taken is not None:
+                            succ = [taken]
+                        else:
+                            succ = keep + [t["otherwise"]]
             elif t["k"] == "call":
                 d = t.get("dest")
                 if d is not None and not d["proj"]:
@@ -224,12 +240,12 @@ def _option_defs(view, local):
     return somes, nones
 
 
-def _cfg_some_iff(view, local, cond_pred, pol, payload_ok, start=0):
+def _cfg_some_iff(view, local, atoms, pol, payload_ok, start=0):
     somes, nones = _option_defs(view, local)
     if not somes or not nones or not all(payload_ok(x) for _, x in somes):
         return False
-    yes = explore(view, [start], [(cond_pred, pol)])
-    no = explore(view, [start], [(cond_pred, not pol)])
+    yes = explore(view, [start], atoms(pol))
+    no = explore(view, [start], atoms(not pol))
     if yes is None or no is None:
         return False
     sb = {bi for bi, _ in somes}
@@ -237,15 +253,39 @@ def _cfg_some_iff(view, local, cond_pred, pol, payload_ok, start=0):
     return bool(yes & sb) and not (yes & nb) and bool(no & nb) and not (no & sb)
 
 
-def some_iff(fv, view, t, op_json, cond_pred, pol, payload_ok):
+def le_terms(t, a_ok, b_ok):
+    """three-valued reading of a comparison term as the proposition `a <= b` (a, b recognised by predicates):
+    True when equivalent, False when equivalent to the negation `a > b`, None otherwise"""
+    if t[0] == "un" and t[1] == "Not":
+        r = le_terms(t[2], a_ok, b_ok)
+        return None if r is None else (not r)
+    if t[0] != "bin" or t[1] not in ("Le", "Lt", "Ge", "Gt"):
+        return None
+    op, x, y = t[1], t[2], t[3]
+    if a_ok(x) and b_ok(y):
+        return {"Le": True, "Gt": False}.get(op)
+    if b_ok(x) and a_ok(y):
+        return {"Ge": True, "Lt": False}.get(op)
+    return None
+
+
+def prop_atoms(reading, val):
+    """atoms for a proposition given by a three-valued reading function (term -> True/False/None)"""
+    return [(lambda t: reading(t) is True, val), (lambda t: reading(t) is False, not val)]
+
+
+def some_iff(fv, view, t, op_json, cond_pred, pol, payload_ok, neg_pred=None):
     """the Option value `t` (held by operand `op_json` of `view`) is Some(x) with payload_ok(x) exactly when the condition
     matched by cond_pred has truth value `pol` (and, for receiver forms, the receiver is Some), None otherwise.  Accepted
     source forms:  c.then_some(x) / c.then(|| x);  o.filter(|_| c);  o.and_then(|v| if c {Some(v)} else {None}) (any arm order,
     match, negation);  if c {Some(x)} else {None} / match;  all decided by evaluating the condition under both assumptions."""
     from .view import payload as mk_pl
 
+    def atoms(val):
+        return [(cond_pred, val)] + ([(neg_pred, not val)] if neg_pred is not None else [])
+
     def ev(term, val):
-        return Explorer(view, [(cond_pred, val)]).eval_term(term)
+        return Explorer(view, atoms(val)).eval_term(term)
     if t[0] == "call" and isinstance(t[1], str):
         base = core.callee_base(t[1])
         a = t[2]
@@ -259,9 +299,161 @@ def some_iff(fv, view, t, op_json, cond_pred, pol, payload_ok):
             return cr is not None and ev(cr, pol) is True and ev(cr, not pol) is False and payload_ok(mk_pl(a[0]))
         if base == "core::option::Option::and_then" and len(a) == 2 and a[1][0] == "closure":
             cvs = [v for v in fv.views if v.body.path == a[1][1]]
-            return len(cvs) == 1 and _cfg_some_iff(cvs[0], 0, cond_pred, pol, payload_ok)
+            return len(cvs) == 1 and _cfg_some_iff(cvs[0], 0, atoms, pol, payload_ok)
         return False
     local = _chase_local(view.body, op_json) if op_json is not None else None
     if local is None:
         return False
-    return _cfg_some_iff(view, local, cond_pred, pol, payload_ok)
+    return _cfg_some_iff(view, local, atoms, pol, payload_ok)
+
+
+# ----------------------------------------------------------------------------- finite functions by constant folding
+
+class _Unfoldable(Exception):
+    pass
+
+
+def fold_fn(body, arg, adts=None, fuel=400):
+    """Value of a small total function of one scalar/fieldless-enum parameter on the abstract input `arg`, by constant
+    folding its MIR (no code is run): arg is an int, or ('variant', name, discr) for a fieldless enum.  Supported: copies,
+    constants, comparisons, bit/arith ops on ints, IntToInt casts, discriminant reads, unit-variant aggregates, switches.
+    Returns an int, ('variant', name) or None when the body uses anything else."""
+    env = {1: arg}
+    bi = 0
+
+    def operand(o):
+        if o["k"] in ("copy", "move"):
+            if o["place"]["proj"]:
+                raise _Unfoldable()
+            l = o["place"]["local"]
+            if l not in env:
+                raise _Unfoldable()
+            return env[l]
+        if o["k"] == "const" and "bits" in o:
+            return o.get("sval", o["bits"])
+        raise _Unfoldable()
+
+    def as_int(v):
+        if isinstance(v, bool):
+            return int(v)
+        if isinstance(v, int):
+            return v
+        if isinstance(v, tuple) and v[0] == "variant" and len(v) == 3:
+            return v[2]
+        raise _Unfoldable()
+    width = {"u8": 8, "u16": 16, "u32": 32, "u64": 64, "usize": 64, "i8": 8, "i16": 16, "i32": 32, "i64": 64, "isize": 64, "bool": 1}
+    try:
+        while fuel > 0:
+            fuel -= 1
+            blk = body.blocks[bi]
+            for st in blk["stmts"]:
+                if st["k"] != "assign":
+                    continue
+                if st["lhs"]["proj"]:
+                    raise _Unfoldable()
+                rv = st["rv"]
+                k = rv["k"]
+                if k == "use":
+                    v = operand(rv["op"])
+                elif k == "binop":
+                    a, b_ = as_int(operand(rv["l"])), as_int(operand(rv["r"]))
+                    op = rv["op"]
+                    v = {"Eq": lambda: a == b_, "Ne": lambda: a != b_, "Lt": lambda: a < b_, "Le": lambda: a <= b_,
+                         "Gt": lambda: a > b_, "Ge": lambda: a >= b_, "BitAnd": lambda: a & b_, "BitOr": lambda: a | b_,
+                         "BitXor": lambda: a ^ b_, "Add": lambda: a + b_, "Sub": lambda: a - b_,
+                         "Shl": lambda: a << b_, "Shr": lambda: a >> b_}.get(op)
+                    if v is None:
+                        raise _Unfoldable()
+                    v = v()
+                    if isinstance(v, bool):
+                        v = int(v)
+                elif k == "unop" and rv["op"] == "Not":
+                    x = as_int(operand(rv["x"]))
+                    v = 1 - x if st["lhs"].get("ty") == "bool" else ~x
+                elif k == "cast" and rv["kind"].startswith("IntToInt"):
+                    x = as_int(operand(rv["op"]))
+                    w = width.get(rv["ty"])
+                    if w is None:
+                        raise _Unfoldable()
+                    v = x & ((1 << w) - 1)
+                elif k == "discr":
+                    if rv["place"]["proj"]:
+                        raise _Unfoldable()
+                    x = env.get(rv["place"]["local"])
+                    if not (isinstance(x, tuple) and x[0] == "variant" and len(x) == 3):
+                        raise _Unfoldable()
+                    v = x[2]
+                elif k == "aggregate" and rv.get("akind") == "adt" and not rv["ops"]:
+                    v = ("variant", rv["variant"])
+                else:
+                    raise _Unfoldable()
+                env[st["lhs"]["local"]] = v
+            t = blk["term"]
+            if t["k"] == "return":
+                r = env.get(0)
+                if isinstance(r, tuple) and r[0] == "variant":
+                    return ("variant", r[1])
+                return r
+            if t["k"] == "goto":
+                bi = t["target"]
+            elif t["k"] == "switch":
+                x = as_int(operand(t["discr"]))
+                nxt = t["otherwise"]
+                for val, tb in t["targets"]:
+                    if val == x:
+                        nxt = tb
+                bi = nxt
+            else:
+                raise _Unfoldable()
+    except (_Unfoldable, KeyError, IndexError):
+        return None
+    return None
+
+
+def le_const(t, x_ok, bound):
+    """three-valued reading of a comparison term as the proposition `x <= bound`:
+    True when t is equivalent to it, False when t is equivalent to its negation, None otherwise"""
+    if t[0] == "un" and t[1] == "Not":
+        r = le_const(t[2], x_ok, bound)
+        return None if r is None else (not r)
+    if t[0] != "bin" or t[1] not in ("Le", "Lt", "Ge", "Gt"):
+        return None
+    op, a, b = t[1], t[2], t[3]
+
+    def cv(c):
+        return c[1] if c[0] == "const" and isinstance(c[1], int) else None
+    if x_ok(a) and cv(b) is not None:
+        c = cv(b)
+        return {"Le": True if c == bound else None, "Lt": True if c == bound + 1 else None,
+                "Gt": False if c == bound else None, "Ge": False if c == bound + 1 else None}[op]
+    if x_ok(b) and cv(a) is not None:
+        c = cv(a)
+        return {"Ge": True if c == bound else None, "Gt": True if c == bound + 1 else None,
+                "Lt": False if c == bound else None, "Le": False if c == bound + 1 else None}[op]
+    return None
+
+
+def values_under(view, starts, atoms, op_json, site_bb=None):
+    """the terms an operand can hold under the assumptions: the definitions of its (copy-chased) local that lie in blocks
+    reachable from `starts` under `atoms`; an operand that is not a plain multiply-defined local yields its one term"""
+    from .view import pnorm
+    body = view.body
+    local = _chase_local(body, op_json)
+    if local is None:
+        return {view.op(op_json)}
+    defs = [(bi, st) for bi, si, st in body.stmts() if st["k"] == "assign" and not st["lhs"]["proj"] and st["lhs"]["local"] == local]
+    cdefs = [bi for bi in body.live_blocks() if body.blocks[bi]["term"]["k"] == "call" and body.blocks[bi]["term"].get("dest") is not None
+             and not body.blocks[bi]["term"]["dest"]["proj"] and body.blocks[bi]["term"]["dest"]["local"] == local]
+    if len(defs) + len(cdefs) <= 1:
+        return {view.op(op_json)}
+    vis = explore(view, starts, atoms, stop=[site_bb] if site_bb is not None else ())
+    if vis is None:
+        return {("unknown", "budget")}
+    out = set()
+    for bi, st in defs:
+        if bi in vis:
+            out.add(pnorm(view.T.rvalue(st["rv"])))
+    for bi in cdefs:
+        if bi in vis:
+            out.add(pnorm(view.T.call_term(bi)))
+    return out
